@@ -55,6 +55,19 @@ OCTAL = "01234567"
 ESCAPED_OCTAL = ["\\0", "\\1", "\\2", "\\3", "\\4", "\\5", "\\6", "\\7"]
 
 
+def _split_alternatives(union_str):
+    """ Splits a|b|c on the unescaped | """
+    res = [""]
+    escaped = False
+    for symbol in union_str:
+        if symbol == "|" and not escaped:
+            res.append("")
+        else:
+            res[-1] += symbol
+        escaped = symbol == "\\" and not escaped
+    return res
+
+
 class PythonRegex(regex.Regex):
     """ Represents a regular expression as used in Python.
 
@@ -257,8 +270,18 @@ class PythonRegex(regex.Regex):
     def _preprocess_negation(bracket_content):
         if not bracket_content or bracket_content[0] != "^":
             return bracket_content
-        # We inverse everything
-        return [x for x in ESCAPED_PRINTABLES if x not in bracket_content]
+        # We inverse everything, except the negation symbol itself
+        excluded = set()
+        for element in bracket_content[1:]:
+            if len(element) > 2 and element[0] == "(" and element[-1] == ")":
+                # A nested set, coming from a shortcut like \d
+                excluded.update(_split_alternatives(element[1:-1]))
+            else:
+                excluded.add(element)
+        # The same character can be written escaped or not
+        excluded.update([TRANSFORMATIONS.get(x[1], x[1]) for x in excluded
+                         if len(x) == 2 and x[0] == "\\"])
+        return [x for x in ESCAPED_PRINTABLES if x not in excluded]
 
     @staticmethod
     def _insert_or(l_to_modify):
